@@ -7,7 +7,7 @@
    OUTPUTS reach everything wired to them within the same tick (also across exposed ports) is the
    "latest value" statement of C03, checked by its oracle on every initial tick.
    Property theorems only. *)
-From TV Require Import Base Model.Wiring Model.Ticker Model.Component Model.Sim Proofs.SimP.
+From TV Require Import Base Model.Wiring Model.Ticker Model.Component Model.Sim Proofs.SimP Model.PyLib Gen.SourceFuns Proofs.GenNestedPrologueP.
 Open Scope Z_scope.
 
 (* for any device behaviour, any depth: the observations of the master's initial tick are exactly
@@ -51,3 +51,17 @@ Example C05_example :
   map (fun o : obs => (fst (fst o), snd (fst o))) (simulate cfg (fun _ _ _ _ => ([], None)) 1 1 5 10 7 [] 100)
   = [(3%positive, 7); (5%positive, 7); (7%positive, 7)].
 Proof. vm_compute. reflexivity. Qed.
+
+(* the tie to the source: what [on_tick_level] does before the tick of its level IS what NestedScheduler.on_tick does before
+   `await self.ticker(...)` -- the roots are the pending interrupts, the due wakeups, "external" and, the first time only,
+   every component of the nested wiring; due wakeups and interrupts are taken off the books, the input changes are stored
+   for "external", the output changes start empty.  The left-hand side is regenerated from /repo by the function
+   translator (harness/gen_funs.py) on every run; [comps] is `self.ticker.components`. *)
+Theorem C05_nested_roots_are_source : forall (wk : list (comp * Z)) (ints : list comp) (done : bool) (comps : list comp)
+        (inch outch : values) (time : Z) (chg : values), NoDup (keys wk) ->
+  gen_nested_prologue wk ints done comps inch outch time chg =
+  (true,
+   filter (fun e : comp * Z => negb (Z.leb (snd e) time)) wk,
+   [], chg, [],
+   ints ++ map fst (filter (fun e : comp * Z => Z.leb (snd e) time) wk) ++ [ext_id] ++ (if negb done then comps else [])).
+Proof. exact nested_prologue_is_source. Qed.
